@@ -463,6 +463,16 @@ def cond_truth(chosen, allv):
 def relation(cond):
     """For a path condition on a comparison: (a, b, set of orderings of a vs b in {'lt','eq','gt'}) or None."""
     e, chosen, allv = cond
+    # match on `a.cmp(&b)`: switch on the discriminant of an Ordering (Less = -1 = 255 as u8, Equal = 0, Greater = 1)
+    if e[0] == "discr" and isinstance(e[1], tuple) and e[1][0] == "call" and str(e[1][1]).endswith("::cmp") and len(e[1][2]) == 2:
+        m = {255: "lt", -1: "lt", 0: "eq", 1: "gt"}
+        if chosen is None:
+            sets = {"lt", "eq", "gt"} - {m[v] for v in allv if v in m}
+        elif chosen in m:
+            sets = {m[chosen]}
+        else:
+            return None
+        return canon(e[1][2][0]), canon(e[1][2][1]), sets
     t = cond_truth(chosen, allv)
     if t is None or e[0] != "bin" or e[1] not in ("Gt", "Ge", "Lt", "Le", "Eq", "Ne"):
         return None
@@ -470,6 +480,18 @@ def relation(cond):
     if not t:
         sets = {"lt", "eq", "gt"} - sets
     return canon(e[2]), canon(e[3]), sets
+
+
+def relation_raw(cond):
+    """Like relation(), but the two operands are returned as raw (un-canonicalised) expression trees."""
+    e, chosen, allv = cond
+    if e[0] == "discr" and isinstance(e[1], tuple) and e[1][0] == "call" and str(e[1][1]).endswith("::cmp") and len(e[1][2]) == 2:
+        r = relation(cond)
+        return None if r is None else (e[1][2][0], e[1][2][1], r[2])
+    r = relation(cond)
+    if r is None:
+        return None
+    return e[2], e[3], r[2]
 
 
 def flip(rel):
